@@ -59,7 +59,10 @@ func topologicalSortTypes(env *Environment, errorSink *validation.ErrorSink) *En
 				predecessors[t] = parent
 				self.VisitChildren(node, node)
 				predecessors[t] = nil
-				sortedTypes = append(sortedTypes, t)
+				if t.GetDefinitionMeta().Namespace == ns.Name {
+					// (definitions of other namespaces are only followed to find reference cycles)
+					sortedTypes = append(sortedTypes, t)
+				}
 
 			case *Field:
 				predecessors[t] = parent
@@ -68,8 +71,9 @@ func topologicalSortTypes(env *Environment, errorSink *validation.ErrorSink) *En
 
 			case *SimpleType:
 				if t.ResolvedDefinition != nil {
-					definitionMeta := t.ResolvedDefinition.GetDefinitionMeta()
-					if definitionMeta.Namespace == ns.Name {
+					// Definitions of other namespaces are followed as well: a cycle may run through them
+					switch t.ResolvedDefinition.(type) {
+					case *RecordDefinition, *EnumDefinition, *NamedType:
 						self.Visit(env.SymbolTable.GetGenericTypeDefinition(t.ResolvedDefinition), parent)
 					}
 					for _, typeArg := range t.ResolvedDefinition.GetDefinitionMeta().TypeParameters {
